@@ -265,7 +265,19 @@ impl Prop for C11 {
                 if !o.result.is_ok() {
                     ex.fail("c11-accept-result", format!("run_on returned {}", o.result.brief()));
                 }
-                if let Some(p) = &d.problem {
+                // capabilities both sides announced that change packet formats (DEPRECATE_EOF,
+                // SESSION_TRACK, QUERY_ATTRIBUTES, compression ...): a server that honours one of
+                // them answers in a dialect the reference decoder does not read; then only the
+                // callbacks are compared
+                let client_caps = match &c.hs.kind {
+                    HsKind::V41 { caps, .. } => *caps,
+                    HsKind::V320 { caps, .. } => *caps as u32,
+                    HsKind::Raw(_) => 0,
+                };
+                let dialect = client_caps & g.caps & !(CAP_FORMAT_NEUTRAL | CAP_PROTOCOL_41 | CAP_SECURE_CONNECTION | CAP_SSL | CAP_CONNECT_WITH_DB | CAP_PLUGIN_AUTH);
+                if dialect != 0 {
+                    ex.class("negotiated-capabilities-change-the-reply-dialect");
+                } else if let Some(p) = &d.problem {
                     ex.fail("c11-commands-not-served", format!("pipelined commands not all served: {}", p));
                 }
                 if !o.mismatches.is_empty() || o.leftover_actions != 0 {
